@@ -4,5 +4,8 @@ CONSTANTS
   WithLocalClose = FALSE
   WithKeepAliveErr = FALSE
   WithCtxCancel = FALSE
+  WithKeepAlive = FALSE
+  BugKaNoCtxCheck = FALSE
+  BugKaNoDiscCheck = FALSE
 CHECK_DEADLOCK FALSE
 INVARIANTS NoClosedAfterDisconnected
